@@ -490,7 +490,7 @@ class Skeleton:
                         continue
                     ks = set(self.attr(pid)["kinds"]) if pid[0] != "param" else set(ALL_KINDS)
                     lost = ks - excluded
-                    out.append({"fn": path, "pid": pid, "site": t[3], "lost": lost, "exit": x, "term": t})
+                    out.append({"fn": path, "pid": pid, "site": t[3], "lost": lost, "exit": x, "term": t, "inp": inp})
         return out
 
 
